@@ -137,7 +137,6 @@ def sig_of(bad):
 
 def minimise(h, bad, w, d, budget_s=60):
     from common import ddmin
-    t_end = time.time() + budget_s
     want = {b["clause"] for b in bad}
     idxs = list(range(len(h["inputs"])))
 
@@ -157,7 +156,7 @@ def minimise(h, bad, w, d, budget_s=60):
         return h2
 
     def test(keep):
-        if time.time() > t_end or not keep:
+        if not keep:
             return False
         h2 = sub(keep)
         if h2 is None:
@@ -231,7 +230,7 @@ def run_check(tier, seed, replay=None):
                 if "io" in l:
                     io = l["io"]
             return {"cfg": cfg, "idx": i, "h": h, "bad": bad, "io": io, "rc": res["rc"]}
-        results = pool.map(go, tasks, deadline=t0 + (900 if tier == "quick" else 7200))
+        results = pool.map(go, tasks, deadline=t0 + (2400 if tier == "quick" else 9000))
         results = [r for r in results if r is not None]
         # determinism: two histories twice
         for t in (tasks[len(tasks) // 2], tasks[-1]):
